@@ -22,6 +22,7 @@ import AnnetModel.Lemmas.ConvergeExample
 import AnnetModel.Lemmas.ConvergeNested
 import AnnetModel.Lemmas.ConvergeNestedPaths
 import AnnetModel.Lemmas.ConvergeNestedExample
+import AnnetModel.Lemmas.ConvergeNestedSecond
 
 /-! OBLIGATIONS
 Annet.Device.C01_put_refines
@@ -36,6 +37,8 @@ Annet.Device.C01_flat_converges_lines
 Annet.Device.C01_flat_converges_nonvacuous
 Annet.Device.C01_nested_converges
 Annet.Device.C01_nested_converges_paths
+Annet.Device.C01_nested_second_run_empty
+Annet.Device.C01_same_lines_diff_empty
 Annet.Device.C01_nested_converges_nonvacuous
 Annet.Device.C01_full_false_permanent
 Annet.Device.C01_full_false_ignore_changes
@@ -199,6 +202,28 @@ theorem C01_nested_converges_paths (v : Vendor) (env : Env) (exit : String) (rul
     (hres : Api.deviceMode Patch.runLogic v rules ordering true old new = .ok r) :
     ConvergeNested.SameC rules (applyCmds env rules (ConvergeNested.treePaths exit r.patch) old) new :=
   ConvergeNested.Lemmas.nested_converges_paths v env exit rules ordering old new r hr hgo hgn hc hp hex hres
+
+/-- THE PROPERTY IN ITS OWN WORDS: deploying the patch makes the diff empty.  Under the hypotheses of
+`C01_nested_converges`, running the pipeline a second time — on the device state after the patch and the same target —
+reports no difference and produces an empty patch.  (The device state after the patch is again a configuration of the
+kind the theorem quantifies over: `ConvergeNested.Lemmas.applied_good`.) -/
+theorem C01_nested_second_run_empty (v : Vendor) (env : Env) (rules : PRules) (ordering : List ORule) (old new : Cfg)
+    (r : Api.Result)
+    (hr : ConvergeNested.NestedRules rules) (hgo : ConvergeNested.GoodC rules old) (hgn : ConvergeNested.GoodC rules new)
+    (hc : ConvergeNested.CmdsOKAll v env rules) (hp : Converge.NoPin ordering)
+    (hres : Api.deviceMode Patch.runLogic v rules ordering true old new = .ok r) :
+    ∃ r2, Api.deviceMode Patch.runLogic v rules ordering true
+        (.mk (ConvergeNested.applyTree env rules r.patch old.kids)) new = .ok r2 ∧
+      r2.diff = [] ∧ r2.patch.items = [] :=
+  ConvergeNested.Lemmas.nested_second_run_empty v env rules ordering old new r hr hgo hgn hc hp hres
+
+/-- The link between the device-level conclusion and the diff: two configurations that hold the same lines slot by slot at
+every level (in any order) have an empty diff. -/
+theorem C01_same_lines_diff_empty (rules : PRules) (a b : Cfg)
+    (hr : ConvergeNested.NestedRules rules) (hga : ConvergeNested.GoodC rules a) (hgb : ConvergeNested.GoodC rules b)
+    (hs : ConvergeNested.SameC rules a b) :
+    ∃ d, Diff.makeDiff rules a b = .ok d ∧ Diff.stripUnchanged d = [] :=
+  ConvergeNested.Lemmas.same_diff_empty rules a b hr hga hgb hs
 
 /-- Non-vacuity of `C01_nested_converges`: a three-level instance (interfaces with sub-blocks; one block removed,
 one added, one changed at two levels, one unchanged) meets every hypothesis, so the theorem applies to it. -/
